@@ -593,7 +593,17 @@ PROPS["C04"] = dict(
                  ("Tmcg.C04.stackeq_soundness_bound", "full"), ("Tmcg.C04.stackeq_soundness_prob", "full"),
                  ("Tmcg.C04.cp_special_sound", "full"), ("Tmcg.C04.schnorr_special_sound", "full"),
                  ("Tmcg.C04.cp_wrong_witness", "full"), ("Tmcg.C04.cpVerify_accept_iff", "full"),
-                 ("Tmcg.C04.nizkVerify_accept_iff", "full")],
+                 ("Tmcg.C04.nizkVerify_accept_iff", "full")] +
+                # round 2: the shuffle of known content, Groth's shuffle argument and the rotation argument - the HONEST PROVER
+                # ALGORITHM with a witness that does not fit (what the property text describes), as counting statements over the
+                # verifier's challenges (TmcgProps/C04Args.lean, builder-sound)
+                [("Tmcg.C04Args." + n, "full") for n in (
+                    "perm_poly_bound", "linear_form_bound", "mult_form_bound",
+                    "skc_sound_interactive", "skc_sound_noninteractive", "skc_sound_publiccoin", "skc_root_count", "skc_count_interactive",
+                    "skc_wrong_commitment", "range_inj_mod",
+                    "groth_sound_interactive", "groth_sound_noninteractive", "groth_sound_publiccoin", "groth_count_substituted",
+                    "groth_lam_count", "groth_count_dropped", "groth_count_dropped_joint", "grothVerifyStack_eq",
+                    "vrhe_sound_interactive", "vrhe_sound_noninteractive", "vrhe_sound_publiccoin", "vrhe_count_interactive", "hooghVerifyStack_eq")],
     predicate=pred_c04,
     level_text="Soundness reductions in Lean 4 for the VTMF sigma protocols: special soundness (two answers give the witness, in particular equal logarithms), "
                "the honest algorithm with a non-fitting witness is accepted only on an explicit hash collision or for one challenge residue class, and the verifiers' exact decision logic. "
@@ -602,10 +612,10 @@ PROPS["C04"] = dict(
                "Cut-and-choose: if one commitment can be opened for both challenge bits, a re-masking (cyclic) permutation relating the two stacks is extracted or an explicit hash collision exhibited; hence for a false statement, "
                "any commitments and ANY response strategy at most one of the 2^kappa challenge vectors is accepted (probability <= 2^-kappa; proving this exposed finding F26). "
                "Rotation / shuffle arguments: false statements (replaced, swapped, duplicated, retyped cards, non-cyclic permutation as rotation) are played against the real verifiers and the model; the exact challenge values on which such a cheat passes are exhibited (lucky:* lines). "
-               "Partial: knowledge soundness of the Groth/Hoogh arguments is not proved in Lean (decision logic + correspondence only).",
+               "Shuffle / rotation arguments (round 2): for the honest prover algorithm run with a witness that does not fit - an output stack with a substituted / re-typed card, a map that is not a permutation (duplicated, dropped card), a non-cyclic permutation presented as a rotation, a commitment that does not open to the messages - acceptance by the model verifier forces an explicit algebraic relation on the verifier's challenges (GrothRel, SkcRoot, RotRel), in the interactive, public-coin and non-interactive modes (there relative to the oracle answers), and the number of accepted challenges is bounded: at most n of |T| values x for the shuffle of known content (roots of a non-zero polynomial of degree n), at most |T|^(n-1) of |T|^n challenge vectors for a substituted card or a non-rotation (a non-trivial form in the exponent), at most (2n-1)|T| of |T|^2 pairs (lambda, x) for a dropped index. The explicit exceptional sets are computed by the model and compared with the real verifier's verdict on every cheat line (args.*.exceptional). Knowledge soundness (extraction from an arbitrary prover) is not attempted.",
     level_note=LEVEL_NOTE + " Hash collision resistance and hardness of discrete logs are assumptions named in the theorem statements (explicit Collision disjunct).",
     trusted=ZK_TRUST,
-    assumptions=["partial: Groth/VRHE knowledge soundness not attempted; the 2^-kappa bound assumes no hash collision among stack texts (explicit hypothesis NoStackCollision)",
+    assumptions=["Groth/VRHE: soundness for the honest prover algorithm with a non-fitting witness (counting bounds over the challenges); knowledge soundness against arbitrary provers not attempted; the 2^-kappa bound assumes no hash collision among stack texts (explicit hypothesis NoStackCollision)",
                  "collision resistance of the hash (explicit disjunct), discrete-log hardness"],
 )
 PROPS["C05"] = dict(
@@ -759,7 +769,7 @@ PROPS["C06"] = dict(
     level_text="Lean 4 theorems: each of the eight families of CheckGroup copies (17 classes) accepts exactly its specification (sizes, p = kq+1 resp. 2q+1 and 7 mod 8, primality oracle, coprime cofactor, generators in range of order dividing q, distinctness, canonical generator = first candidate of the verifiable derivation); "
                "accepted class-D sets are well-formed Schnorr groups when the oracle is right; CheckElement decides subgroup membership. Correspondence: all 17 real classes on valid sets and 30 kinds of single-field corruption, verdicts and hash queries of the canonical derivation compared with the model.",
     level_note=LEVEL_NOTE + " mpz_probab_prime_p is an oracle (its answers are taken from the run; probable prime = prime is assumed).",
-    assumptions=["probable-prime test = primality", "the prime generators (lprime, sprime2g, ...) themselves are not modelled yet: 'accepts every set the library generates' is checked on sets generated by the harness to the same specification and on library-generated canonical generators"],
+    assumptions=["probable-prime test = primality", "first clause (area groupgen, TmcgProps/C06Gen.lean): the generating constructors of all classes are modelled as functions of their coins, the primality oracle and the hash; what they return passes the class's own CheckGroup (and that of the classes that copy p, q, g, h) - under: the oracle is right about the returned p (and q for the QR group), and no two independently generated generators coincide (accepted <-> no coincidence: the library does not redraw, known finding F55); the multi-party common key is modelled for one party (h = g^x)"],
 )
 
 
@@ -778,7 +788,22 @@ def pred_c11(line, st):
     return None
 
 
-PROPS["C06"]["areas"] = [("groups", {"quick": 160, "thorough": 800}, [], "san")]
+from pred_c06gen import pred_c06gen  # noqa: E402
+
+
+def pred_c06_all(line, st):
+    if line.startswith(("groupgen.", "prop.groupgen")):
+        return pred_c06gen(line, st)
+    return pred_c06(line, st)
+
+
+PROPS["C06"]["areas"] = [("groups", {"quick": 160, "thorough": 800}, [], "san"),
+                         ("groupgen", {"quick": 24, "thorough": 96}, [], "san")]
+PROPS["C06"]["predicate"] = pred_c06_all
+PROPS["C06"]["obligations"] += [("Tmcg.C06." + n, "full") for n in (
+    "vtmf_generated_passes", "vtmf_consumers_iff", "vtmf_eotp_passes", "vtmf_pt_iff", "vtmf_pedersen_iff",
+    "pedersen_generated_iff", "pedersen_setup_iff", "pt_generated_iff", "vrhe_generated_iff",
+    "eotp_generated_passes", "qr_generated_passes")]
 from pred_c11b import pred_c11b  # noqa: E402  (QR cards, keys, groups, protocol state)
 
 
@@ -1398,6 +1423,9 @@ PROPS["C16"] = dict(
                  ("Tmcg.C16.bindsView_unsat", "full"), ("Tmcg.C16.sign_run_trace_sched", "full"),
                  ("Tmcg.C16.view_of_rows", "full"), ("Tmcg.C16.shareOk_opens", "full"), ("Tmcg.C16.pedBind_violation", "full"),
                  ("Tmcg.C16.prod_proof_extract", "full"), ("Tmcg.C16.prod_proof_simulate", "full"), ("Tmcg.C16.shEmit_spec", "full"),
+                 ("Tmcg.C16.atAct_shRead_emit", "full"), ("Tmcg.C16.runViews_of_rows", "full"),
+                 # non-vacuity: the full RunViews instance for the honest three-party run (p = 23, q = 11), the verdict obtained THROUGH sign_run_valid_views
+                 ("Tmcg.C16.sign_run_views_nonvacuous", "full"), ("Tmcg.C16.tinyRun_is_this_run", "full"),
                  ("Tmcg.C16.sign_run_agree_views", "partial"), ("Tmcg.C16.sign_run_valid_views", "partial")],
     predicate=lambda line, st: (pred_cgjkr(line, st) if line.startswith(("prop.cgjkr.", "cgjkr.")) else pred_c16(line, st)),
     level_text="Theorems in Lean 4: the models of CanettiGennaroJareckiKrawczykRabinDSS::Verify and GennaroJareckiKrawczykRabinNTS::Verify return true exactly on the textbook DSA resp. Schnorr acceptance condition "
@@ -1595,7 +1623,12 @@ def pred_c19(line, st):
 from pred_c19b import pred_c19b, c19b_final  # noqa: E402  (packet emitters, fingerprints, key ids)
 
 
+from pred_gpgx import pred_gpgx, gpgx_final  # noqa: E402  (GnuPG cross-check, area gpgx)
+
+
 def pred_c19_all(line, st):
+    if line.startswith("prop.gpgx"):
+        return pred_gpgx(line, st)
     if line.startswith(("pgpenc.", "prop.pgpenc")):
         return pred_c19b(line, st)
     return pred_c19(line, st)
@@ -1604,7 +1637,10 @@ def pred_c19_all(line, st):
 PROPS["C19"] = dict(
     module="TmcgProps.C19",
     areas=[("pgpcodec", {"quick": 120, "thorough": 1500}, ["--s2k-sample"], "san"),
-           ("pgpenc", {"quick": 12, "thorough": 60}, [], "san")],
+           ("pgpenc", {"quick": 12, "thorough": 60}, [], "san"),
+           # GnuPG 2.2 as the second judge the property names: keys, secret keys and armor the library emits are imported /
+           # parsed / de-armored by gpg (fingerprints and key IDs compared), tampered ones refused (tools/pred_gpgx.py)
+           ("gpgx", {"quick": 1, "thorough": 6}, ["--kinds", "pubkey,seckey,armor"], "san")],
     obligations=[("Tmcg.C19.radix64_roundtrip", "full"), ("Tmcg.C19.radix64_lines_le_76", "full"),
                  ("Tmcg.C19.crc24_spec", "full"), ("Tmcg.C19.len_roundtrip", "full"),
                  ("Tmcg.C19.len_forms_disjoint", "full"), ("Tmcg.C19.partial_len_pow2", "full"),
@@ -1615,7 +1651,8 @@ PROPS["C19"] = dict(
                  ("Tmcg.C19.s2k_feed_periodic", "full"), ("Tmcg.C19.s2k_context_preload", "full"),
                  ("Tmcg.C19.s2k_key_length", "full")]
                 + [("Tmcg.C19." + n, "full") for n in ['pub_roundtrip', 'sec_roundtrip', 'secProt_roundtrip', 'pkesk_roundtrip', 'sig_roundtrip', 'prepared_roundtrip', 'uid_roundtrip', 'lit_roundtrip', 'sed_roundtrip', 'seipd_roundtrip', 'mdc_roundtrip', 'aead_roundtrip', 'packetDecodeE_packet', 'packet_header', 'header_shortest', 'pubEncode_header', 'secEncode_header', 'pkeskEncode_header', 'sigEncode_header', 'uidEncode_header', 'litEncode_header', 'sedEncode_header', 'seipdEncode_header', 'aeadEncode_header', 'mdcEncode_header', 'sedEncode_eq', 'seipdEncode_eq', 'aeadEncode_eq', 'fprFrame_injective', 'fprFrame_versions_disjoint', 'fprFrame_v4', 'fprFrame_v5', 'keyid_v4', 'keyid_v5', 'issuerSubs_keyid', 'subSplit_encode', 'area_roundtrip', 'parseSubs_recognised', 'areaOk_of_recognised', 'areaOk_of_allFine', 'selfSubs_fine', 'revokerSubs_fine', 'detachedSubs_fine', 'detachedV5Subs_fine', 'revocationSubs_fine', 'certSubs_fine', 'timestampSubs_fine', 'attestSubs_fine', 'prepSelf_eq', 'prepCert_eq', 'prepDetachedV5_eq', 'takeMpi_encode', 'takeMpis_encode', 'matDecode_encode', 'exampleRsa_wf', 'exampleEcdh_wf', 'exampleSec_wf', 'examplePkesk_wf', 'exampleSig_wf', 'exampleRsa_roundtrip', 'exampleSig_roundtrip']],
-    predicate=pred_c19_all, final=lambda st: (c19b_final(st) if any(k.startswith("pe") or k.startswith("c19b") for k in st) else None),
+    predicate=pred_c19_all, final=lambda st: ((c19b_final(st) if any(k.startswith("pe") or k.startswith("c19b") for k in st) else None)
+                                              or gpgx_final(st, kinds=("pubkey", "seckey", "armor", "s2k"))),
     level_text="Lean 4 theorems about a model of the OpenPGP encodings written from RFC 4880: radix-64 round trip and line length, CRC-24 = polynomial division with the generated constants, body lengths (all n < 2^32, forms disjoint, partial lengths powers of two), MPIs, strings, armor round trip and checksum rejection for the four armor types, all 256 iterated-S2K count octets, the octet stream every S2K hash context is fed (full salt+passphrase at least once, periodic, count or input length, j zero octets of preload) and the key length. "
                "Correspondence: the real static methods vs the model byte for byte (encoders on all boundary sizes; decoders also on arbitrary and mutated input); the predicate judges emitted octets by an independent reference (Python base64, a reference CRC-24, the RFC formulas). "
                "Partial: the packet emitters (signature, key, PKESK, SKESK, literal, SEIPD, AEAD ...), fingerprints/key ids are not modelled yet (the S2K streams are: the digests themselves are libgcrypt's, checked against hashlib by the predicate); GnuPG as second oracle was used once by hand (gpg --dearmor accepted the emitted armors) and is not part of the check.",
@@ -1742,12 +1779,15 @@ def c20_coverage(st, thorough=False):
 
 PROPS["C20"] = dict(
     module="TmcgProps.C20",
-    areas=[("pgpmsg", {"quick": 20, "thorough": 60}, [], "san")],
+    areas=[("pgpmsg", {"quick": 20, "thorough": 60}, [], "san"),
+           # GnuPG 2.2 verifies the library's detached signatures (binary / text, RSA / DSA, five hashes, 26 document classes)
+           # and decrypts its symmetric and public-key messages; every tampered artefact must be refused by gpg AND the library
+           ("gpgx", {"quick": 1, "thorough": 5}, ["--kinds", "detsig,symenc,pkenc"], "san")],
     obligations=[("Tmcg.C20." + n, "full") for n in ['cfb_decrypt_encrypt', 'sym_roundtrip', 'mdc_detects', 'no_mdc_refused', 'sed_packet_refused', 'seipd_message_roundtrip', 'aead_decrypt_encrypt', 'aead_message_roundtrip', 'aead_empty_refused', 'aead_tamper_evident', 'aead_reorder_detected', 'aead_truncation_detected', 'aead_ad_bound', 'aead_nonces_distinct', 'validity_logic', 'validity_expired_flag', 'weak_hash_refused', 'unknown_hash_refused', 'left16_check', 'left16_pass', 'verifySig_digest', 'hash_input_injective_binary', 'hash_input_injective_text', 'hash_input_injective_standalone', 'hash_input_injective_key', 'hash_input_injective_key2', 'hash_input_injective_cert', 'sigTrailer_inj', 'textCanon_crlf',
                                                    'unhashed_only_issuer', 'unhashed_irrelevant', 'unhashed_irrelevant_valid', "unhashed_agree'", 'unhashed_agree_counterexample',
                                                    'hashed_wins_issuer', 'hashed_wins_fingerprint', 'hashed_wins_embedded']],
-    predicate=pred_c20,
-    final=lambda st: c20_coverage(st),
+    predicate=lambda line, st: (pred_gpgx(line, st) if line.startswith("prop.gpgx") else pred_c20(line, st)),
+    final=lambda st: c20_coverage(st) or gpgx_final(st, kinds=("detsig", "symenc", "pkenc")),
     level_text="Theorems in Lean 4 with the primitives as parameters: CFB (modelled on a block function) decrypts what it encrypts for every block function; exact acceptance condition of the MDC check; "
                "data without integrity protection is refused; AEAD chunking round trip for every length and chunk size, and under an ideal AEAD any accepted string is the sender's ciphertext (reorder, truncation, dropped final tag, "
                "other associated data refused); chunk nonces distinct; exact characterisation of signature validity (expiry, key age, 25 h future tolerance, weak hashes), the left-16-bit check, "
@@ -1755,5 +1795,5 @@ PROPS["C20"] = dict(
                "lengths around chunk boundaries; RSA, DSA, ECDSA, EdDSA keys; v3/v4/v5 signatures) with byte flips, reorders, truncations, clock and time variations; model recomputes every call from the logged primitive answers.",
     level_note=LEVEL_NOTE + " Block cipher, SHA-1/hash, AEAD seal/open and public-key verification are oracle parameters (logged from libgcrypt through interposed entry points); gpg cross-check is not done (no gpg in the sandbox run).",
     assumptions=["tamper evidence is relative to the primitives: MDC = exact acceptance condition (altered ciphertext accepted only on a SHA-1 coincidence), AEAD = consequences of an ideal AEAD hypothesis, signatures = injective hash input (collision reduction)",
-                 "MessageParse is modelled for tags 9, 18, 19, 20, 12 and unknown tags only; PKESK (RSA, ElGamal) verdict-only; ECDH not exercised; no cross-check with GnuPG"],
+                 "MessageParse is modelled for tags 9, 18, 19, 20, 12 and unknown tags only; PKESK (RSA, ElGamal) verdict-only; ECDH not exercised; GnuPG 2.2.40 cross-check (area gpgx) for the RFC 4880 subset: v4 RSA/DSA/ElGamal, SEIPD+MDC, no AEAD-draft packets"],
 )
